@@ -14,6 +14,13 @@ namespace WS.PyH2
 
 abbrev Str := List Char
 
+instance instDecEqExcept {ε α : Type} [DecidableEq ε] [DecidableEq α] : DecidableEq (Except ε α)
+  | .ok a, .ok b => if h : a = b then isTrue (by rw [h]) else isFalse (by intro h'; cases h'; exact h rfl)
+  | .error a, .error b =>
+    if h : a = b then isTrue (by rw [h]) else isFalse (by intro h'; cases h'; exact h rfl)
+  | .ok _, .error _ => isFalse (by intro h; cases h)
+  | .error _, .ok _ => isFalse (by intro h; cases h)
+
 /-- `str.isspace()` on ASCII: TAB LF VT FF CR, FS GS RS US, SPACE. -/
 def isPySpace (c : Char) : Bool :=
   let n := c.toNat
